@@ -66,6 +66,8 @@ func init() {
 	Inputs["elev"] = feed(1700000000,
 		alert("R25N#EL728", stop("x")), alert("A27S#EL123", stop("x")), alert("R25S#EL728", stop("x")),
 		alert("E01N#EL728", stop("x")), alert("L03N#EL9", stop("x")), alert("A27N#EL123", stop("x")), alert("lmm:alert:77", stop("S1")))
+	Inputs["elev3"] = feed(1700000000,
+		alert("R25N#EL728", stop("x")), alert("A27S#EL123", stop("x")), alert("R25S#EL728", stop("x")), alert("lmm:alert:77", stop("S1")))
 	vp := func(id, label, plate string, trip string) *gtfsrt.FeedEntity {
 		v := &gtfsrt.VehiclePosition{Vehicle: &gtfsrt.VehicleDescriptor{}, Timestamp: u64(1700000100)}
 		if id != "" {
